@@ -18,9 +18,9 @@ fn small_items(ctx: &Ctx) -> Vec<corpus::Item> {
 pub fn run_generic(ctx: &Ctx, is_c12: bool) -> Coverage {
     let items = small_items(ctx);
     let kinds: Vec<VKind> = if ctx.quick() {
-        vec![VKind::Bytes, VKind::Multi2, VKind::Multi2Canon]
+        vec![VKind::Bytes, VKind::Multi2, VKind::Multi2Canon, VKind::Multi2TwoEos]
     } else {
-        vec![VKind::Bytes, VKind::Multi2, VKind::Multi3, VKind::Multi2Canon, VKind::Multi3Canon]
+        vec![VKind::Bytes, VKind::Multi2, VKind::Multi3, VKind::Multi2Canon, VKind::Multi3Canon, VKind::Multi2TwoEos]
     };
     let t_items = ctx.elapsed();
     let jobs = make_jobs(&items, &kinds);
